@@ -257,7 +257,66 @@ func checkC18(c *Ctx) {
 				lk = call.(*ssa.Call)
 			}
 			if lk == nil {
-				r.Unk("C18.2", "PhantomIsLive: phantomLookup call", f.Pos(), fnName(f), "not found")
+				// the lookup is written out in PhantomIsLive itself: the same three conditions on the direct Lookup tests
+				isHit := func(field string) func(string, bool) bool {
+					return func(cnd string, pol bool) bool { return pol && strings.HasSuffix(cnd, "."+field+".Lookup(addr)") }
+				}
+				isMissOrOff := func(field string) func(string, bool) bool {
+					return func(cnd string, pol bool) bool {
+						return (!pol && strings.HasSuffix(cnd, "."+field+".Lookup(addr)")) || (pol && strings.HasSuffix(cnd, "."+field+" == nil)")) || (pol && strings.HasPrefix(cnd, "(nil == ") && strings.HasSuffix(cnd, "."+field+")"))
+					}
+				}
+				hitL, hitN := edgesEstablishing(f, isHit("ipCacheLive")), edgesEstablishing(f, isHit("ipCacheNonLive"))
+				if len(hitL) == 0 || len(hitN) == 0 {
+					r.Unk("C18.2", "PhantomIsLive: phantomLookup call", f.Pos(), fnName(f), "neither a phantomLookup call nor direct Lookup tests of both caches found")
+				} else {
+					g := guardedM(f, probe, isMissOrOff("ipCacheLive")) && guardedM(f, probe, isMissOrOff("ipCacheNonLive"))
+					r.Check(g, "C18.2", "PhantomIsLive: probe only after a cache miss without error", probe.Pos(), fnName(f), "dominated by a miss (or a disabled cache) for both caches",
+						"the probe is sent although the cache answered (or the cached answer is ignored)")
+					hit := map[edge]bool{}
+					for e := range hitL {
+						hit[e] = true
+					}
+					for e := range hitN {
+						hit[e] = true
+					}
+					noProbe := false
+					var wit []int
+					nHitRet := 0
+					eachInstr(f, func(in ssa.Instruction) {
+						ret, ok := in.(*ssa.Return)
+						if !ok || ret.Block().Comment == "recover" || len(ret.Results) != 2 {
+							return
+						}
+						if free, w := reach(f, nil, isInstr(ret), isInstr(probe), hit); free {
+							noProbe, wit = true, w
+						}
+						// a cache-hit return carries its own cache's verdict
+						if strings.HasSuffix(pathOf(returnedValue(ret, 1, nil)), "ErrCachedPhantom") {
+							nHitRet++
+							cv, isC := constOf(returnedValue(ret, 0, nil))
+							if !isC {
+								r.Unk("C18.2", "phantomLookup: cached verdict", ret.Pos(), fnName(f), "cache-hit return does not return a constant verdict")
+								return
+							}
+							field := "ipCacheNonLive"
+							if cv.String() == "true" {
+								field = "ipCacheLive"
+							}
+							r.Check(guardedM(f, ret, isHit(field)), "C18.2", "phantomLookup: verdict "+cv.String()+" only on a hit in "+field, ret.Pos(), fnName(f), "guarded by "+field+".Lookup(addr)",
+								"a hit in one cache is reported with the other cache's verdict: the cached answer is the flipped measurement")
+						}
+					})
+					if nHitRet < 2 {
+						r.Unk("C18.2", "phantomLookup: two cache-hit returns", f.Pos(), fnName(f), fmt.Sprintf("found %d", nHitRet))
+					}
+					if noProbe {
+						r.Bad("C18.2", "PhantomIsLive: an answer can be returned without a cache hit and without probing", probe.Pos(), fnName(f),
+							"a path returns a verdict that comes neither from the live / non-live cache nor from a probe made in this call: some other record of an earlier verdict is served, with no lifetime and no capacity bound", r.blockPath(f, wit)...)
+					} else {
+						r.OK("C18.2", "PhantomIsLive: every answer is a cache hit or a probe made in this call", probe.Pos(), "no return reachable without the probe except through the cache-hit edges")
+					}
+				}
 			} else {
 				g1 := guarded(f, probe, Atom{pathOf(lk) + "#0", false})
 				g2 := guarded(f, probe, Atom{"(" + orderEq(pathOf(lk)+"#1", "nil") + ")", true})
@@ -284,7 +343,7 @@ func checkC18(c *Ctx) {
 			}
 		}
 	}
-	if f := c.fn("C18.2", lv, "CachedLivenessTester", "phantomLookup"); f != nil {
+	if f := c.P.Func(repoMod+"/"+lv, "CachedLivenessTester", "phantomLookup"); f != nil && f.Blocks != nil {
 		n := 0
 		eachInstr(f, func(in ssa.Instruction) {
 			ret, ok := in.(*ssa.Return)
